@@ -29,9 +29,11 @@ import (
 	"time"
 
 	"bytes"
+	"context"
 
 	"tunnox-core/internal/client"
 	"tunnox-core/internal/client/mapping"
+	"tunnox-core/internal/client/tunnel"
 	"tunnox-core/internal/utils/iocopy"
 	vc "tunnox-core/internal/verifharness/common"
 )
@@ -343,6 +345,18 @@ func (c closeOnly) Close() error {
 	return c.g.Close()
 }
 
+// netConn: a transport connection (net.Conn) without CloseWrite, for the production constructors.
+type netConn struct{ g *gconn }
+
+func (c netConn) Read(p []byte) (int, error)       { return c.g.Read(p) }
+func (c netConn) Write(p []byte) (int, error)      { return c.g.Write(p) }
+func (c netConn) Close() error                     { return c.g.Close() }
+func (c netConn) LocalAddr() net.Addr              { return fakeAddr("l") }
+func (c netConn) RemoteAddr() net.Addr             { return fakeAddr("r") }
+func (c netConn) SetDeadline(time.Time) error      { return nil }
+func (c netConn) SetReadDeadline(time.Time) error  { return nil }
+func (c netConn) SetWriteDeadline(time.Time) error { return nil }
+
 type readSide struct{ g *gconn }
 
 func (r readSide) Read(p []byte) (int, error) { return r.g.Read(p) }
@@ -378,6 +392,13 @@ func endpoint(g *gconn) io.ReadWriteCloser {
 		rwc, err = iocopy.NewReadWriteCloser(readSide{g}, writeSideCloser{g}, closeFn)
 	case "none":
 		rwc, err = iocopy.NewReadWriteCloser(readSide{g}, writeOnly{g}, closeFn)
+	case "wcw":
+		rwc, err = iocopy.NewReadWriteCloserWithCloseWrite(readSide{g}, writeOnly{g}, closeFn, func() error { return g.CloseWrite() })
+	case "prod":
+		rwc = client.VerifCreateTunnelRWC(netConn{g})
+		if rwc == nil {
+			panic("createTunnelRWC failed")
+		}
 	default:
 		return g
 	}
@@ -546,6 +567,43 @@ func runRelay(f func() *iocopy.Result, returned *atomic.Bool) chan relayRes {
 	return ch
 }
 
+// ---------------------------------------------------------------- the relay run by a real tunnel.Tunnel
+
+type tunnelRun struct {
+	t      *tunnel.Tunnel
+	ch     chan relayRes
+	closed atomic.Int64
+	mu     sync.Mutex
+	rsn    string
+}
+
+func (tr *tunnelRun) reason() string { tr.mu.Lock(); defer tr.mu.Unlock(); return tr.rsn }
+
+// startTunnel: NewTunnel + Start as the mapping handler does; Start launches runDataCopy, which runs the relay
+// and closes the tunnel with the reason derived from the relay result. The "result" delivered on ch is empty:
+// the tunnel keeps it to itself.
+func startTunnel(proto string, local, tunnelRWC io.ReadWriteCloser, returned *atomic.Bool) *tunnelRun {
+	tr := &tunnelRun{ch: make(chan relayRes, 1)}
+	mgr := tunnel.NewTunnelManager(context.Background(), tunnel.TunnelRoleListen)
+	tr.t = tunnel.NewTunnel(&tunnel.TunnelConfig{
+		ID: "verif-c12", MappingID: "m", Role: tunnel.TunnelRoleListen, Protocol: proto,
+		LocalConn: local, TunnelRWC: tunnelRWC, Manager: mgr,
+		OnClosed: func(reason tunnel.CloseReason, err error) {
+			tr.mu.Lock()
+			tr.rsn = reason.String()
+			tr.mu.Unlock()
+			if tr.closed.Add(1) == 1 {
+				returned.Store(true)
+				tr.ch <- relayRes{r: &iocopy.Result{}}
+			}
+		},
+	})
+	if err := tr.t.Start(); err != nil {
+		tr.ch <- relayRes{panic: "panic start:" + strings.ReplaceAll(err.Error(), " ", "_")}
+	}
+	return tr
+}
+
 // ---------------------------------------------------------------- TCP
 
 type epSpec struct {
@@ -568,7 +626,7 @@ func stepsFor(chunks [][]byte) int {
 func parseEP(t []string) (epSpec, []string, error) {
 	var e epSpec
 	e.kind = "cw"
-	if len(t) > 0 && (t[0] == "cw" || t[0] == "same" || t[0] == "split" || t[0] == "none") {
+	if len(t) > 0 && (t[0] == "cw" || t[0] == "same" || t[0] == "split" || t[0] == "none" || t[0] == "prod" || t[0] == "wcw") {
 		e.kind = t[0]
 		t = t[1:]
 	}
@@ -631,7 +689,18 @@ func runTCP(toks []string, known bool) (string, error) {
 	A.kind, B.kind = ea.kind, eb.kind
 	var returned atomic.Bool
 	connA, connB := endpoint(A), endpoint(B)
-	ch := runRelay(func() *iocopy.Result { return iocopy.Bidirectional(connA, connB, nil) }, &returned)
+	viaTunnel := toks[0] == "tcpt"
+	var tun *tunnelRun
+	var ch chan relayRes
+	if viaTunnel {
+		tun = startTunnel("tcp", connA, connB, &returned)
+		ch = tun.ch
+	} else if len(sc)%2 == 1 {
+		// the SOCKS5 path calls the relay through iocopy.Simple
+		ch = runRelay(func() *iocopy.Result { return iocopy.Simple(connA, connB, "verif") }, &returned)
+	} else {
+		ch = runRelay(func() *iocopy.Result { return iocopy.Bidirectional(connA, connB, nil) }, &returned)
+	}
 	s := &sched{conns: []*gconn{A, B}}
 	// a direction is over when its half-close reached the sink; for a sink on which no half-close is
 	// observable: when the goroutine has left its loop (plus a moment for what it does on the way out)
@@ -642,7 +711,7 @@ func runTCP(toks []string, known bool) (string, error) {
 			return true
 		}
 		if loopLeft(src, sink) {
-			if sink.kind != "cw" {
+			if sink.kind != "cw" && sink.kind != "wcw" {
 				if !settled[sink] {
 					settled[sink] = true
 					time.Sleep(300 * time.Microsecond)
@@ -710,6 +779,26 @@ func runTCP(toks []string, known bool) (string, error) {
 	case rr := <-ch:
 		if rr.panic != "" {
 			return rr.panic, nil
+		}
+		if viaTunnel {
+			// the relay result is not handed out by the tunnel: what it made of it is
+			st := tun.t.GetStats()
+			se, re := "none", "none"
+			if A.tailOut.Load() && ea.tail == "err" {
+				se = "read"
+			}
+			if B.wRefused.Load() {
+				se = "write"
+			}
+			if B.tailOut.Load() && eb.tail == "err" {
+				re = "read"
+			}
+			if A.wRefused.Load() {
+				re = "write"
+			}
+			return fmt.Sprintf("ret 1 toB %s toA %s wfB %s wfA %s bad %s cwB %s cwA %s cl %s sent %d recv %d serr %s rerr %s reason %s st %d %d closed %d",
+				vc.Hex(B.stream), vc.Hex(A.stream), b01(B.wfEnv), b01(A.wfEnv), b01(A.bad || B.bad || A.writerClosed || B.writerClosed), b01(B.cw), b01(A.cw),
+				b01(A.closed && B.closed), st.BytesSent, st.BytesRecv, se, re, tun.reason(), st.BytesSent, st.BytesRecv, tun.closed.Load()), nil
 		}
 		r := rr.r
 		return fmt.Sprintf("ret 1 toB %s toA %s wfB %s wfA %s bad %s cwB %s cwA %s cl %s sent %d recv %d serr %s rerr %s",
@@ -870,7 +959,7 @@ func runUDP(toks []string) (string, error) {
 	}
 
 	if toks[0] == "udpv" {
-		return execUDPV(tchunks, ttail, sc), nil
+		return execUDPV(dgs, tchunks, ttail, sc), nil
 	}
 	hasHold := strings.ContainsAny(sc, "U")
 	var obs string
@@ -1178,9 +1267,10 @@ func (c *countConn) Close() error { return c.v.Close() }
 // execUDPV: udpv U hold 0 T <tail> 0 tds … s <schedule over t,s>
 // iocopy.UDP between the REAL mapping.UDPVirtualConn (as tunnel.runDataCopy uses it) and a gated tunnel double.
 // t: one iteration of the tunnel->UDP goroutine; s: the socket accepts the next datagram of the send loop.
-func execUDPV(tchunks [][]byte, ttail string, sc string) string {
+func execUDPV(dgs [][]byte, tchunks [][]byte, ttail string, sc string) string {
 	sock := &gpc{grants: make(chan struct{}, 1<<16)}
-	vconn := mapping.VerifNewUDPVirtualConn(sock, fakeAddr("app"))
+	sess := mapping.VerifNewSession(sock, fakeAddr("app"))
+	vconn := sess.Conn
 	T := newConn("T", tchunks, ttail, false, -1, false, false)
 	var returned atomic.Bool
 	cc := &countConn{v: vconn}
@@ -1202,11 +1292,38 @@ func execUDPV(tchunks [][]byte, ttail string, sc string) string {
 			s.stall()
 		}
 	}
+	// local -> tunnel: the datagram arrives on the listener socket; the adapter's read loop hands it to the session
+	// (processPacket); the relay reads it from the virtual connection, batches it, the 20 ms ticker flushes it
+	ui, expected := 0, 0
+	stepU := func() {
+		if ui >= len(dgs) || finDec() || s.stalls > 0 {
+			return
+		}
+		d := dgs[ui]
+		ui++
+		if len(d) > 0 {
+			expected += 2 + len(d)
+		}
+		sess.Deliver(d)
+		if !waitUntil(func() bool { return sess.ReadQueued() == 0 }, stallTimeout) {
+			s.stall()
+		}
+	}
+	flushed := func() {
+		// everything delivered so far must be on the tunnel before the tunnel's end closes the session
+		if !waitUntil(func() bool { return T.streamLen() >= expected }, stallTimeout) {
+			s.stall()
+		}
+	}
 	stepT := func() {
 		if finDec() || s.stalls > 0 {
 			return
 		}
 		if T.exhausted() {
+			for ui < len(dgs) {
+				stepU()
+			}
+			flushed()
 			// the end of the tunnel is about to be delivered: the relay will close the session, which stops its
 			// send loop (a datagram still queued then may be dropped: UDP teardown) - let the socket take the queue first
 			for pending() > 0 && s.stalls == 0 {
@@ -1221,6 +1338,8 @@ func execUDPV(tchunks [][]byte, ttail string, sc string) string {
 			stepT()
 		case 's':
 			send()
+		case 'u':
+			stepU()
 		}
 	}
 	for j := 0; j < stepsFor(tchunks) && !finDec(); j++ {
@@ -1240,7 +1359,7 @@ func execUDPV(tchunks [][]byte, ttail string, sc string) string {
 		for _, d := range sock.sent {
 			sb.WriteString(" " + vc.Hex(d))
 		}
-		fmt.Fprintf(&sb, " nread 0 serr %s rerr %s sent %d recv %d", b01(r.SendError != nil), b01(r.ReceiveError != nil),
+		fmt.Fprintf(&sb, " nread %d serr %s rerr %s sent %d recv %d", len(dgs), b01(r.SendError != nil), b01(r.ReceiveError != nil),
 			r.BytesSent, r.BytesReceived)
 		return sb.String()
 	case <-time.After(watchdog):
@@ -1396,7 +1515,7 @@ func execLine(line string) string {
 	var obs string
 	var err error
 	switch toks[0] {
-	case "tcp":
+	case "tcp", "tcpt":
 		obs, err = runTCP(toks, known)
 	case "udp", "udpv":
 		obs, err = runUDP(toks)
